@@ -112,8 +112,15 @@ func NewHTTPStoreCache(key []byte, store store.Store) *httpCache {
 
 // Get get http cache
 func (hc *httpCache) Get() (status Status, response *HTTPResponse) {
+	status, response, _ = hc.GetWithAge()
+	return
+}
+
+// GetWithAge get http cache and, for a hit, the age of the response at the moment of the lookup.
+// The age uses the clock reading of the expiry check (same lock), so it never exceeds the lifetime.
+func (hc *httpCache) GetWithAge() (status Status, response *HTTPResponse, age int) {
 	hc.mu.Lock()
-	status, done, response := hc.get()
+	status, done, response, age := hc.get()
 	hc.mu.Unlock()
 	// 如果done不为空，表示需要等待确认当前请求状态
 	for done != nil {
@@ -122,7 +129,7 @@ func (hc *httpCache) Get() (status Status, response *HTTPResponse) {
 		// 完成后重新获取当前状态与响应，需要在锁内获取，
 		// 因为缓存有可能刚好过期并被其它goroutine重置（此时需要重新等待或成为fetching）
 		hc.mu.Lock()
-		status, done, response = hc.get()
+		status, done, response, age = hc.get()
 		hc.mu.Unlock()
 	}
 	return
@@ -227,7 +234,7 @@ func (hc *httpCache) saveToStore() (err error) {
 	return hc.store.Set(hc.key, data, ttl)
 }
 
-func (hc *httpCache) get() (status Status, done chan struct{}, data *HTTPResponse) {
+func (hc *httpCache) get() (status Status, done chan struct{}, data *HTTPResponse, age int) {
 	now := nowUnix()
 	// 如果首次创建并且设置store
 	if hc.status == StatusUnknown {
@@ -267,6 +274,7 @@ func (hc *httpCache) get() (status Status, done chan struct{}, data *HTTPRespons
 	// 当其它goroutine获取锁之后，有可能刚好重置数据
 	if status == StatusHit {
 		data = hc.response
+		age = int(now - hc.createdAt)
 	}
 	return
 }
